@@ -29,11 +29,13 @@ structure Later (c : Cfg) (s s' : St) : Prop where
   work_le : work s' ≤ work s
   io : s.iterating = s.origAlive → s'.iterating = s'.origAlive
   exh : s.ready = [] → s.srcDead = true → s'.ready = [] ∧ s'.srcDead = true
+  rlen : ordered c = true →
+    (JoblibModel.ParallelProto.restS s').length ≤ (JoblibModel.ParallelProto.restS s).length
 
 theorem Later.refl (c : Cfg) (s : St) : Later c s s :=
   ⟨Frame.refl s, Nat.le_refl _, fun _ _ => ⟨rfl, rfl, rfl⟩, fun _ _ _ => ⟨rfl, rfl⟩, fun _ => Nat.le_refl _,
    fun _ _ => rfl, fun _ => ⟨[], by simp⟩, id, rfl, rfl, Nat.le_refl _, Nat.le_refl _, Nat.le_refl _, id,
-   fun a b => ⟨a, b⟩⟩
+   fun a b => ⟨a, b⟩, fun _ => Nat.le_refl _⟩
 
 theorem Later.trans {c : Cfg} {a b d : St} (h1 : Later c a b) (h2 : Later c b d) : Later c a d := by
   have hab : d.aborting = false → b.aborting = false := by
@@ -44,7 +46,7 @@ theorem Later.trans {c : Cfg} {a b d : St} (h1 : Later c a b) (h2 : Later c b d)
   refine ⟨h1.frame.trans h2.frame, Nat.le_trans h1.len h2.len, ?_, ?_, ?_, ?_, ?_, fun hp => h2.post (h1.post hp),
     h2.now.trans h1.now, h2.nbc.trans h1.nbc, Nat.le_trans h1.ncomp h2.ncomp, Nat.le_trans h1.pos h2.pos,
     Nat.le_trans h2.work_le h1.work_le, fun h => h2.io (h1.io h),
-    fun a b => h2.exh (h1.exh a b).1 (h1.exh a b).2⟩
+    fun a b => h2.exh (h1.exh a b).1 (h1.exh a b).2, fun ho => Nat.le_trans (h2.rlen ho) (h1.rlen ho)⟩
   · intro i hi
     have x := h1.old i hi
     have y := h2.old i (Nat.lt_of_lt_of_le hi h1.len)
@@ -73,10 +75,12 @@ theorem Later.of_same {c : Cfg} {s s' : St}
     fun i _ _ => by rw [hg]; exact ⟨rfl, rfl⟩, ?_, ?_, fun _ => ⟨[], by simp [hjobs]⟩, ?_, hnow, hnbc,
     by rw [hnc]; exact Nat.le_refl _, by rw [hpos]; exact Nat.le_refl _,
     by simp only [work, hready, hpos, hf.spec]; exact Nat.le_refl _, by rw [hit, hor]; exact id,
-    by rw [hready, hdead]; exact fun a b => ⟨a, b⟩⟩
+    by rw [hready, hdead]; exact fun a b => ⟨a, b⟩, ?_⟩
   · intro _; simp only [meas, unpopped, work, hjobs, hjs, hready, hpos, hf.spec]; omega
   · intro _ _; simp only [JoblibModel.ParallelProto.restS, hjobs, hready, hpos, hf.spec, hf.base, hg]
   · intro hp; simp only [Post, hab, hit, hready, hdead] at hp ⊢; exact hp
+  · intro _; simp only [JoblibModel.ParallelProto.restS, hjobs, hready, hpos, hf.spec, hf.base, hg]
+    exact Nat.le_refl _
 
 theorem Later.of_dlspec {c : Cfg} {t0 : Nat} {fo : Bool} {s s' : St} {more : Bool}
     (hna : s.aborting = false) (h : DLSpec c t0 fo s s' more) : Later c s s' := by
@@ -84,7 +88,7 @@ theorem Later.of_dlspec {c : Cfg} {t0 : Nat} {fo : Bool} {s s' : St} {more : Boo
     fun i hi _ => by rw [h.old i hi]; exact ⟨rfl, rfl⟩, h.meas_le, h.restS, h.jobs_pre, ?_, h.same.2.1,
     h.same.2.2.2.2.2.2.2.2.2.1, by rw [h.same.2.2.2.1]; exact Nat.le_refl _, ?_, h.work_le,
     by rw [h.same.2.2.2.2.1, h.same.2.2.2.2.2.1]; exact id,
-    fun a b => ⟨(h.exh_stable a b).1, (h.exh_stable a b).2.1⟩⟩
+    fun a b => ⟨(h.exh_stable a b).1, (h.exh_stable a b).2.1⟩, h.rlen⟩
   · intro hp ha hi
     rw [h.same.2.2.2.2.1] at hi
     obtain ⟨h1, h2⟩ := hp hna hi
@@ -106,6 +110,10 @@ structure DCSpec (c : Cfg) (t0 : Nat) (s s' : St) (more : Bool) : Prop where
   same : s'.sched = s.sched ∧ s'.hung = s.hung ∧ s'.idle = s.idle ∧ s'.iterating = s.iterating ∧
     s'.origAlive = s.origAlive ∧ s'.nCompleted = s.nCompleted ∧ s'.inCb = s.inCb ∧ s'.preLeft = s.preLeft
   meas_lt : more = false → meas c s' ≤ meas c s
+  B : InvB c t0 s → (c.pdMode ≠ 1 → ∃ r, s.preLeft = some r ∧
+      s.srcPos + r + c.nj * bmax c ≤ c.pd + s.nCompleted * (c.nj * bmax c)) → InvB c t0 s'
+  opk : ownParked t0 s' ≤ ownParked t0 s + 1
+  U : ordered c = false → InvU t0 s → UStep t0 s s'
 
 theorem dispatchOneCb_spec {c : Cfg} (hc : CfgOK c) {t0 : Nat} {s : St}
     (hT : InvT c t0 none s) (hS : InvS c t0 s) (hL : InvL c t0 s) (hna : s.aborting = false) :
@@ -125,18 +133,37 @@ theorem dispatchOneCb_spec {c : Cfg} (hc : CfgOK c) {t0 : Nat} {s : St}
         ⟨rfl, rfl, rfl, rfl, rfl, rfl, rfl, rfl, id⟩
     refine ⟨hd.T, hd.S, hd.L, fun hp => hd.iterp (fun a b => hp a b), hl0.trans (Later.of_dlspec hna hd), ?_, hd.pend,
       hd.work_lt, ⟨hd.same.1, hd.same.2.2.1, hd.same.2.2.2.2.2.2.1, hd.same.2.2.2.2.1, hd.same.2.2.2.2.2.1,
-        hd.same.2.2.2.1, hd.same.2.2.2.2.2.2.2.2.1, hd.pre_orig rfl⟩, fun hm => hd.meas_le (hd.more_abort hm)⟩
-    intro hm ha
-    obtain ⟨h1, h2⟩ := hd.exh hm ha
-    exact ⟨h1, by simpa using h2⟩
+        hd.same.2.2.2.1, hd.same.2.2.2.2.2.2.2.2.1, hd.pre_orig rfl⟩, fun hm => hd.meas_le (hd.more_abort hm),
+      ?_, ?_, ?_⟩
+    · intro hm ha
+      obtain ⟨h1, h2⟩ := hd.exh hm ha
+      exact ⟨h1, by simpa using h2⟩
+    · intro hB hsl
+      have hB0 : InvB c t0 { s with bsI := s.bsI + 1 } :=
+        InvB_mono hB rfl (fun _ => rfl) rfl rfl rfl (Nat.le_refl _)
+      exact (dispatchLocked_B (fo := true) (scriptedBs_le_bmax c s) hS0 hna hB0 (fun hm _ => hsl hm)).1
+    · have hB0 : ownParked t0 { s with bsI := s.bsI + 1 } = ownParked t0 s := rfl
+      -- `ownParked` does not depend on `InvB`
+      have := ownParked_dispatchLocked (c := c) (t0 := t0) (fo := true) (bs := scriptedBs c s) hS0 hna
+      rw [hB0] at this; exact this
+    · intro ho hU
+      have hU0 : InvU t0 { s with bsI := s.bsI + 1 } := InvU_frame hU rfl rfl rfl
+      have := dispatchLocked_U (fo := true) (bs := scriptedBs c s) ho hT0 hS0 hna hU0
+      exact ⟨this.inv, this.rest, this.rlen⟩
   · simp only [hau, Bool.false_eq_true, if_false]
     have hd := dispatchLocked_dlspec hc (fo := true) hbs hT hS hL hna
     refine ⟨hd.T, hd.S, hd.L, hd.iterp, Later.of_dlspec hna hd, ?_, hd.pend,
       hd.work_lt, ⟨hd.same.1, hd.same.2.2.1, hd.same.2.2.2.2.2.2.1, hd.same.2.2.2.2.1, hd.same.2.2.2.2.2.1,
-        hd.same.2.2.2.1, hd.same.2.2.2.2.2.2.2.2.1, hd.pre_orig rfl⟩, fun hm => hd.meas_le (hd.more_abort hm)⟩
-    intro hm ha
-    obtain ⟨h1, h2⟩ := hd.exh hm ha
-    exact ⟨h1, by simpa using h2⟩
+        hd.same.2.2.2.1, hd.same.2.2.2.2.2.2.2.2.1, hd.pre_orig rfl⟩, fun hm => hd.meas_le (hd.more_abort hm),
+      ?_, ?_, ?_⟩
+    · intro hm ha
+      obtain ⟨h1, h2⟩ := hd.exh hm ha
+      exact ⟨h1, by simpa using h2⟩
+    · intro hB hsl
+      exact (dispatchLocked_B (fo := true) (scriptedBs_le_bmax c s) hS hna hB (fun hm _ => hsl hm)).1
+    · exact ownParked_dispatchLocked (c := c) (t0 := t0) (fo := true) (bs := scriptedBs c s) hS hna
+    · intro ho hU
+      exact dispatchLocked_U (fo := true) (bs := scriptedBs c s) ho hT hS hna hU
 
 /-- What a completion step guarantees. -/
 structure CBSpec (c : Cfg) (t0 : Nat) (s s' : St) : Prop where
@@ -146,6 +173,8 @@ structure CBSpec (c : Cfg) (t0 : Nat) (s s' : St) : Prop where
   hung : s'.hung = s.hung
   idle : s'.idle = s.idle
   pre : s'.preLeft = s.preLeft
+  B : InvB c t0 s → InvB c t0 s'
+  U : ordered c = false → InvU t0 s → UStep t0 s s'
 
 theorem own_of_callId {c : Cfg} {t0 : Nat} {hole : Option Nat} {s : St} {i : Nat} (hT : InvT c t0 hole s)
     (h : (getTrk s i).callId = s.callId) : t0 ≤ i ∧ i < s.trk.length := by
@@ -179,13 +208,15 @@ theorem callback_spec {c : Cfg} (hc : CfgOK c) {t0 : Nat} {s : St} {i : Nat} {fa
     CBSpec c t0 s (callback c s i failed) := by
   by_cases hst' : (getTrk s i).callId ≠ s.callId
   · rw [stale_callback_noop c s i failed hst']
-    refine ⟨⟨InvT_hole_drop hT (Or.inr ?_), hS, hL, hP⟩, Later.refl c s, rfl, rfl, rfl, rfl⟩
+    refine ⟨⟨InvT_hole_drop hT (Or.inr ?_), hS, hL, hP⟩, Later.refl c s, rfl, rfl, rfl, rfl, id,
+      fun _ hU => UStep.refl hU⟩
     intro ⟨h0, h1⟩; exact hst' (hT.ownId i h0 h1)
   have hst : (getTrk s i).callId = s.callId := by simpa using hst'
   obtain ⟨hi0, hi1⟩ := own_of_callId hT hst
   by_cases hab : s.aborting = true
   · rw [aborting_callback_noop c s i failed hab]
-    exact ⟨⟨InvT_hole_drop hT (Or.inl hab), hS, hL, hP⟩, Later.refl c s, rfl, rfl, rfl, rfl⟩
+    exact ⟨⟨InvT_hole_drop hT (Or.inl hab), hS, hL, hP⟩, Later.refl c s, rfl, rfl, rfl, rfl, id,
+      fun _ hU => UStep.refl hU⟩
   have hna : s.aborting = false := by simpa using hab
   have hp : (getTrk s i).status = .pending := (hT.parked_pending hna i hi0 hi1).mpr (Or.inr rfl)
   unfold callback
@@ -208,13 +239,23 @@ theorem callback_spec {c : Cfg} (hc : CfgOK c) {t0 : Nat} {s : St} {i : Nat} {fa
         rw [hg]; grind) rfl rfl rfl
     have hL' := InvL_of (s' := { s with trk := s.trk.set i { getTrk s i with status := .error, result := .exc (.task id) }, exception := true, aborting := true, jobs := if ordered c then s.jobs else s.jobs ++ [i] })
       hL (fun h => h) rfl (fun h => h) (by intro _ _ h3; simp at h3)
-    refine ⟨⟨hT', hS', hL', by intro h3; simp at h3⟩, ?_, rfl, rfl, rfl, rfl⟩
+    refine ⟨⟨hT', hS', hL', by intro h3; simp at h3⟩, ?_, rfl, rfl, rfl, rfl,
+      fun hB => InvB_mono hB (by simp) (fun j => by rw [hg]; grind) rfl rfl rfl (Nat.le_refl _),
+      fun ho hU => UStep.of_same (InvU_register (t := { getTrk s i with status := .error, result := .exc (.task id) })
+        hU hi0 hi1 hp (by simp) rfl (by simp [ho]) rfl) (fun j => by rw [hg]; grind) rfl rfl rfl rfl rfl⟩
     refine ⟨⟨rfl, rfl, rfl, rfl, rfl, rfl, rfl, rfl, fun _ => rfl⟩, by simp, ?_, ?_, by simp, by simp, ?_,
       by intro _ h3; simp at h3, rfl, rfl, Nat.le_refl _, Nat.le_refl _, Nat.le_refl _, fun h => h,
-      fun a b => ⟨a, b⟩⟩
+      fun a b => ⟨a, b⟩, ?_⟩
     · intro j _; rw [hg]; grind
     · intro j _ hs; rw [hg]; grind
     · intro ho; exact ⟨[], by simp [ho]⟩
+    · intro ho
+      apply Nat.le_of_eq
+      congr 1
+      simp only [restS, ho, if_true]
+      have : ∀ j, (getTrk { s with trk := s.trk.set i { getTrk s i with status := .error, result := .exc (.task id) }, exception := true, aborting := true, jobs := s.jobs } j).items = (getTrk s j).items := by
+        intro j; rw [getTrk_set (s := s) rfl]; grind
+      simp only [this]
   | none =>
     simp only
     rw [registerOutcome_done hp]
@@ -230,7 +271,7 @@ theorem callback_spec {c : Cfg} (hc : CfgOK c) {t0 : Nat} {s : St} {i : Nat} {fa
       hL id rfl id hL.orig_exh
     have hl2 : Later c s { s with trk := s.trk.set i { getTrk s i with status := .done, result := .vals (getTrk s i).items }, jobs := if ordered c then s.jobs else s.jobs ++ [i], nCompleted := s.nCompleted + (getTrk s i).bsize } := by
       refine ⟨⟨rfl, rfl, rfl, rfl, rfl, rfl, rfl, rfl, id⟩, by simp, ?_, ?_, ?_, ?_, ?_, ?_, rfl, rfl,
-        Nat.le_add_right _ _, Nat.le_refl _, Nat.le_refl _, id, fun a b => ⟨a, b⟩⟩
+        Nat.le_add_right _ _, Nat.le_refl _, Nat.le_refl _, id, fun a b => ⟨a, b⟩, ?_⟩
       · intro j _; rw [hg]; grind
       · intro j _ hs; rw [hg]; grind
       · intro _
@@ -243,6 +284,30 @@ theorem callback_spec {c : Cfg} (hc : CfgOK c) {t0 : Nat} {s : St} {i : Nat} {fa
         simp only [this]
       · intro ho; exact ⟨[], by simp [ho]⟩
       · intro hp'; exact hp'
+      · intro ho
+        apply Nat.le_of_eq
+        congr 1
+        simp only [restS, ho, if_true]
+        have : ∀ j, (getTrk { s with trk := s.trk.set i { getTrk s i with status := .done, result := .vals (getTrk s i).items }, jobs := s.jobs, nCompleted := s.nCompleted + (getTrk s i).bsize } j).items = (getTrk s j).items := by
+          intro j; rw [getTrk_set (s := s) rfl]; grind
+        simp only [this]
+    have hB2 : InvB c t0 s → InvB c t0 { s with trk := s.trk.set i { getTrk s i with status := .done, result := .vals (getTrk s i).items }, jobs := if ordered c then s.jobs else s.jobs ++ [i], nCompleted := s.nCompleted + (getTrk s i).bsize } :=
+      fun hB => InvB_mono hB (by simp) (fun j => by rw [hg]; grind) rfl rfl rfl (Nat.le_add_right _ _)
+    have hU2 : ordered c = false → InvU t0 s → UStep t0 s { s with trk := s.trk.set i { getTrk s i with status := .done, result := .vals (getTrk s i).items }, jobs := if ordered c then s.jobs else s.jobs ++ [i], nCompleted := s.nCompleted + (getTrk s i).bsize } :=
+      fun ho hU => UStep.of_same (InvU_register (t := { getTrk s i with status := .done, result := .vals (getTrk s i).items })
+        hU hi0 hi1 hp (by simp) rfl (by simp [ho]) rfl) (fun j => by rw [hg]; grind) rfl rfl rfl rfl rfl
+    have hbpos : 1 ≤ (getTrk s i).bsize := by
+      have hok := hT.items_ok i hi0 hi1 (by rw [hp]; simp)
+      rw [hok.2]; exact List.length_pos_iff.mpr hok.1
+    have hslack : InvB c t0 s → c.pdMode ≠ 1 → ∃ r, s.preLeft = some r ∧
+        s.srcPos + r + c.nj * bmax c ≤ c.pd + (s.nCompleted + (getTrk s i).bsize) * (c.nj * bmax c) := by
+      intro hB hm
+      obtain ⟨r, h1, h2⟩ := hB.budget hm
+      refine ⟨r, h1, ?_⟩
+      have : (s.nCompleted + 1) * (c.nj * bmax c) ≤ (s.nCompleted + (getTrk s i).bsize) * (c.nj * bmax c) :=
+        Nat.mul_le_mul_right _ (by omega)
+      rw [Nat.add_mul, Nat.one_mul] at this
+      omega
     by_cases hor : s.origAlive = true
     · rw [if_pos hor]
       have hd := dispatchOneCb_spec hc hT2 hS2 hL2 hna
@@ -252,7 +317,8 @@ theorem callback_spec {c : Cfg} (hc : CfgOK c) {t0 : Nat} {s : St} {i : Nat} {fa
       cases more with
       | true =>
         refine ⟨⟨hd.T, hd.S, hd.L, ?_⟩, hl2.trans hd.later, hd.same.1, hd.same.2.1, hd.same.2.2.1,
-          hd.same.2.2.2.2.2.2.2⟩
+          hd.same.2.2.2.2.2.2.2, fun hB => hd.B (hB2 hB) (hslack hB),
+          fun ho hU => (hU2 ho hU).trans (hd.U ho (hU2 ho hU).inv) hd.later.frame.abort_mono⟩
         intro ha _; exact hd.pend rfl ha
       | false =>
         have hT4 : InvT c t0 none { s3 with iterating := false, origAlive := false } :=
@@ -262,15 +328,19 @@ theorem callback_spec {c : Cfg} (hc : CfgOK c) {t0 : Nat} {s : St} {i : Nat} {fa
         have hL4 : InvL c t0 { s3 with iterating := false, origAlive := false } :=
           InvL_clear hd.L rfl rfl rfl (fun ha => hd.exh rfl ha)
         refine ⟨⟨hT4, hS4, hL4, by intro _ h3; simp at h3⟩, (hl2.trans hd.later).trans ?_, hd.same.1, hd.same.2.1,
-          hd.same.2.2.1, hd.same.2.2.2.2.2.2.2⟩
+          hd.same.2.2.1, hd.same.2.2.2.2.2.2.2,
+          fun hB => InvB_mono (hd.B (hB2 hB) (hslack hB)) rfl (fun _ => rfl) rfl rfl rfl (Nat.le_refl _),
+          fun ho hU => ((hU2 ho hU).trans (hd.U ho (hU2 ho hU).inv) hd.later.frame.abort_mono).trans
+            (UStep.of_same (InvU_frame (hd.U ho (hU2 ho hU).inv).inv rfl rfl rfl) (fun _ => rfl) rfl rfl rfl rfl rfl)
+            (fun h => h)⟩
         have hg3 : ∀ j, getTrk { s3 with iterating := false, origAlive := false } j = getTrk s3 j := fun j => rfl
         refine ⟨⟨rfl, rfl, rfl, rfl, rfl, rfl, rfl, rfl, id⟩, Nat.le_refl _, fun j _ => ⟨rfl, rfl, rfl⟩,
           fun j _ _ => ⟨rfl, rfl⟩, fun _ => Nat.le_refl _, fun _ _ => rfl, fun _ => ⟨[], by simp⟩, ?_, rfl, rfl,
-          Nat.le_refl _, Nat.le_refl _, Nat.le_refl _, fun _ => rfl, fun a b => ⟨a, b⟩⟩
+          Nat.le_refl _, Nat.le_refl _, Nat.le_refl _, fun _ => rfl, fun a b => ⟨a, b⟩, fun _ => Nat.le_refl _⟩
         intro _ ha _; exact hd.exh rfl ha
     · have hor' : s.origAlive = false := by simpa using hor
       rw [if_neg hor]
-      refine ⟨⟨hT2, hS2, hL2, ?_⟩, hl2, rfl, rfl, rfl, rfl⟩
+      refine ⟨⟨hT2, hS2, hL2, ?_⟩, hl2, rfl, rfl, rfl, rfl, hB2, hU2⟩
       intro _ hit
       have := hL.iter_orig hit
       rw [hor'] at this; simp at this
@@ -296,7 +366,7 @@ theorem deliver_spec {c : Cfg} (hc : CfgOK c) {t0 : Nat} {s : St} (k : Nat) (h :
   cases hk : s.parked[k]? with
   | none =>
     simp only
-    refine ⟨⟨h, Later.refl c s, rfl, rfl, rfl, rfl⟩, ?_⟩
+    refine ⟨⟨h, Later.refl c s, rfl, rfl, rfl, rfl, id, fun _ hU => UStep.refl hU⟩, ?_⟩
     intro hlt; rw [List.getElem?_eq_getElem hlt] at hk; simp at hk
   | some i =>
     simp only
@@ -343,7 +413,7 @@ theorem deliver_spec {c : Cfg} (hc : CfgOK c) {t0 : Nat} {s : St} (k : Nat) (h :
         ⟨rfl, rfl, rfl, rfl, rfl, rfl, rfl, rfl, id⟩
     have hIC : Inv c t0 { sB with inCb := false } :=
       hcb.inv.frame rfl rfl rfl rfl rfl rfl rfl rfl rfl rfl rfl rfl rfl ⟨rfl, rfl, rfl, rfl, rfl, rfl, rfl, rfl, id⟩
-    refine ⟨⟨hIC, (hlA.trans hcb.later).trans hlC, ?_, ?_, ?_, ?_⟩, ?_⟩
+    refine ⟨⟨hIC, (hlA.trans hcb.later).trans hlC, ?_, ?_, ?_, ?_, ?_, ?_⟩, ?_⟩
     · show sB.sched = s.sched
       rw [hcb.sched, hex]
     · show sB.hung = s.hung
@@ -352,18 +422,34 @@ theorem deliver_spec {c : Cfg} (hc : CfgOK c) {t0 : Nat} {s : St} (k : Nat) (h :
       rw [hcb.idle, hex]
     · show sB.preLeft = s.preLeft
       rw [hcb.pre, hex]
+    · intro hB
+      have hBA : InvB c t0 { s3 with inCb := true } :=
+        InvB_mono hB (by rw [hex]) (fun j => by rw [hex]; rfl) (by rw [hex]) (by rw [hex]) (by rw [hex])
+          (by rw [hex]; exact Nat.le_refl _)
+      exact InvB_mono (hcb.B hBA) rfl (fun _ => rfl) rfl rfl rfl (Nat.le_refl _)
+    · intro ho hU
+      have hUA : InvU t0 { s3 with inCb := true } :=
+        InvU_frame hU (by rw [hex]) (by rw [hex]) (by rw [hex])
+      have h1 : UStep t0 s { s3 with inCb := true } :=
+        UStep.of_same hUA (fun j => by rw [hex]; rfl) (by rw [hex]) (by rw [hex]) (by rw [hex]) (by rw [hex])
+          (by rw [hex])
+      have h2 := hcb.U ho hUA
+      have h3 : UStep t0 sB { sB with inCb := false } :=
+        UStep.of_same (InvU_frame h2.inv rfl rfl rfl) (fun _ => rfl) rfl rfl rfl rfl rfl
+      exact (h1.trans h2 hcb.later.frame.abort_mono).trans h3 (fun h => h)
     · intro _ ha
       have := hcb.later.meas_le ha
       have h2 : meas c { sB with inCb := false } = meas c sB := rfl
       omega
 
 theorem CBSpec.refl {c : Cfg} {t0 : Nat} {s : St} (h : Inv c t0 s) : CBSpec c t0 s s :=
-  ⟨h, Later.refl c s, rfl, rfl, rfl, rfl⟩
+  ⟨h, Later.refl c s, rfl, rfl, rfl, rfl, id, fun _ hU => UStep.refl hU⟩
 
 theorem CBSpec.trans {c : Cfg} {t0 : Nat} {a b d : St} (h1 : CBSpec c t0 a b) (h2 : CBSpec c t0 b d) :
     CBSpec c t0 a d :=
   ⟨h2.inv, h1.later.trans h2.later, h2.sched.trans h1.sched, h2.hung.trans h1.hung, h2.idle.trans h1.idle,
-   h2.pre.trans h1.pre⟩
+   h2.pre.trans h1.pre, fun hB => h2.B (h1.B hB),
+   fun ho hU => (h1.U ho hU).trans (h2.U ho (h1.U ho hU).inv) h2.later.frame.abort_mono⟩
 
 theorem deliverAll_spec {c : Cfg} (hc : CfgOK c) {t0 : Nat} : ∀ (l : List Nat) (s : St), Inv c t0 s →
     CBSpec c t0 s (deliverAll c s l) := by
@@ -390,6 +476,8 @@ structure HookSpec (c : Cfg) (t0 : Nat) (sleep : Bool) (s s' : St) : Prop where
   prog : sleep = true → (s.parked ≠ [] ∨ s.sched ≠ []) → s'.aborting = false →
     meas c s' + s'.sched.length + 1 ≤ meas c s + s.sched.length
   pre : s'.preLeft = s.preLeft
+  B : InvB c t0 s → InvB c t0 s'
+  U : ordered c = false → InvU t0 s → UStep t0 s s'
 
 theorem hook_spec {c : Cfg} (hc : CfgOK c) {t0 : Nat} (sleep : Bool) {s : St} (h : Inv c t0 s) :
     HookSpec c t0 sleep s (hook c sleep s) := by
@@ -407,9 +495,13 @@ theorem hook_spec {c : Cfg} (hc : CfgOK c) {t0 : Nat} (sleep : Bool) {s : St} (h
     generalize deliverAll c { s with sched := rest } entry = s2 at hd
     have hsch : s2.sched = rest := hd.sched
     have hm1 : meas c { s with sched := rest } = meas c s := rfl
+    have hU1 : InvU t0 s → UStep t0 s { s with sched := rest } :=
+      fun hU => UStep.of_same (InvU_frame hU rfl rfl rfl) (fun _ => rfl) rfl rfl rfl rfl rfl
     cases sleep with
     | false =>
-      refine ⟨hd.inv, hl1.trans hd.later, fun _ => hd.hung, fun _ => hd.hung, ?_, ?_, hd.pre⟩
+      refine ⟨hd.inv, hl1.trans hd.later, fun _ => hd.hung, fun _ => hd.hung, ?_, ?_, hd.pre,
+        fun hB => hd.B (InvB_mono hB rfl (fun _ => rfl) rfl rfl rfl (Nat.le_refl _)),
+        fun ho hU => (hU1 hU).trans (hd.U ho (hU1 hU).inv) hd.later.frame.abort_mono⟩
       · show s2.sched.length ≤ _; rw [hsch, hs]; simp
       · intro hh; cases hh
     | true =>
@@ -418,7 +510,13 @@ theorem hook_spec {c : Cfg} (hc : CfgOK c) {t0 : Nat} (sleep : Bool) {s : St} (h
       have hl3 : Later c s2 { s2 with idle := 0 } :=
         Later.of_same rfl rfl rfl (Nat.le_refl _) rfl rfl rfl rfl rfl rfl rfl rfl rfl
           ⟨rfl, rfl, rfl, rfl, rfl, rfl, rfl, rfl, id⟩
-      refine ⟨h3, (hl1.trans hd.later).trans hl3, fun _ => hd.hung, fun _ => hd.hung, ?_, ?_, hd.pre⟩
+      have hU3 : InvU t0 s2 → UStep t0 s2 { s2 with idle := 0 } :=
+        fun hU => UStep.of_same (InvU_frame hU rfl rfl rfl) (fun _ => rfl) rfl rfl rfl rfl rfl
+      refine ⟨h3, (hl1.trans hd.later).trans hl3, fun _ => hd.hung, fun _ => hd.hung, ?_, ?_, hd.pre,
+        fun hB => InvB_mono (hd.B (InvB_mono hB rfl (fun _ => rfl) rfl rfl rfl (Nat.le_refl _))) rfl (fun _ => rfl)
+          rfl rfl rfl (Nat.le_refl _),
+        fun ho hU => ((hU1 hU).trans (hd.U ho (hU1 hU).inv) hd.later.frame.abort_mono).trans
+          (hU3 (hd.U ho (hU1 hU).inv).inv) (fun h => h)⟩
       · show s2.sched.length ≤ _; rw [hsch, hs]; simp
       · intro _ _ ha
         have := hd.later.meas_le ha
@@ -428,7 +526,8 @@ theorem hook_spec {c : Cfg} (hc : CfgOK c) {t0 : Nat} (sleep : Bool) {s : St} (h
     simp only
     cases sleep with
     | false =>
-      refine ⟨h, Later.refl c s, fun _ => rfl, fun _ => rfl, Nat.le_refl _, ?_, rfl⟩
+      refine ⟨h, Later.refl c s, fun _ => rfl, fun _ => rfl, Nat.le_refl _, ?_, rfl, id,
+        fun _ hU => UStep.refl hU⟩
       intro hh; cases hh
     | true =>
       simp only [if_true]
@@ -440,7 +539,11 @@ theorem hook_spec {c : Cfg} (hc : CfgOK c) {t0 : Nat} (sleep : Bool) {s : St} (h
           Later.of_same rfl rfl rfl (Nat.le_refl _) rfl rfl rfl rfl rfl rfl rfl rfl rfl
             ⟨rfl, rfl, rfl, rfl, rfl, rfl, rfl, rfl, id⟩
         obtain ⟨hd, hm⟩ := deliver_spec hc 0 h1
-        refine ⟨hd.inv, hl1.trans hd.later, fun _ => hd.hung, fun _ => hd.hung, ?_, ?_, hd.pre⟩
+        have hU1 : InvU t0 s → UStep t0 s { s with idle := 0, sched := [] } :=
+          fun hU => UStep.of_same (InvU_frame hU rfl rfl rfl) (fun _ => rfl) rfl rfl rfl rfl rfl
+        refine ⟨hd.inv, hl1.trans hd.later, fun _ => hd.hung, fun _ => hd.hung, ?_, ?_, hd.pre,
+          fun hB => hd.B (InvB_mono hB rfl (fun _ => rfl) rfl rfl rfl (Nat.le_refl _)),
+          fun ho hU => (hU1 hU).trans (hd.U ho (hU1 hU).inv) hd.later.frame.abort_mono⟩
         · rw [hd.sched]; simp
         · intro _ _ ha
           have := hm hp ha
@@ -466,11 +569,15 @@ theorem hook_spec {c : Cfg} (hc : CfgOK c) {t0 : Nat} (sleep : Bool) {s : St} (h
         · refine ⟨h1.frame rfl rfl rfl rfl rfl rfl rfl rfl rfl rfl rfl rfl rfl
               ⟨rfl, rfl, rfl, rfl, rfl, rfl, rfl, rfl, id⟩,
             hl1.trans (Later.of_same rfl rfl rfl (Nat.le_refl _) rfl rfl rfl rfl rfl rfl rfl rfl rfl
-              ⟨rfl, rfl, rfl, rfl, rfl, rfl, rfl, rfl, id⟩), ?_, ?_, by simp, ?_, rfl⟩
+              ⟨rfl, rfl, rfl, rfl, rfl, rfl, rfl, rfl, id⟩), ?_, ?_, by simp, ?_, rfl,
+            fun hB => InvB_mono hB rfl (fun _ => rfl) rfl rfl rfl (Nat.le_refl _),
+            fun _ hU => UStep.of_same (InvU_frame hU rfl rfl rfl) (fun _ => rfl) rfl rfl rfl rfl rfl⟩
           · intro hh; cases hh
           · intro hor; rw [hs] at hor; exact absurd hor hno
           · intro _ hor; rw [hs] at hor; exact absurd hor hno
-        · refine ⟨h1, hl1, fun _ => rfl, fun _ => rfl, by simp, ?_, rfl⟩
+        · refine ⟨h1, hl1, fun _ => rfl, fun _ => rfl, by simp, ?_, rfl,
+            fun hB => InvB_mono hB rfl (fun _ => rfl) rfl rfl rfl (Nat.le_refl _),
+            fun _ hU => UStep.of_same (InvU_frame hU rfl rfl rfl) (fun _ => rfl) rfl rfl rfl rfl rfl⟩
           intro _ hor; rw [hs] at hor; exact absurd hor hno
 
 end JoblibModel.ParallelProto
